@@ -18,7 +18,7 @@ import mirlib
 import mirparse as mp
 import mirsym as ms
 import z3
-from vcommon import Outcome, Findings, build_cli, run_cli, new_replay_dir, tier, log, panic_location
+from vcommon import Outcome, Findings, build_cli, run_cli, new_replay_dir, tier, log, panic_location, crashed
 
 # ------------------------------------------------------------------------------------
 # hand-written part: how to *write* a producer / a site as source text (cannot cause a
@@ -851,6 +851,18 @@ def check():
     return o.finish()
 
 
+EMITTER_PROGRAMS = {
+    "alias-of-reference-in-recursive-component": "let @node = { 'value str, 'next link };\nlet link  = @node;\nres /nodes on get -> <[@node]>;\n",
+    "rec-of-reference-and-rec-of-rec": "let @a = { 'n num };\nlet r = rec x @a;\nlet s = rec x (rec y { 'x? x, 'y? y });\nres /r on get -> <r> :: <status=404, s>;\n",
+    "references-to-operators": "let @o = num | str;\nlet @j = { 'a num } & { 'b str };\nlet @s = { 'a num } ~ { 'b str };\nlet t = { 'o @o, 'j @j, 's @s, 'self? t };\n"
+                               "let u = t | @j;\nlet w = [w] | [num];\nres /t on get -> <t> :: <status=404, u> :: <status=500, w>;\n",
+    "alias-chains-uris-relations": "let a = b;\nlet b = c;\nlet c = { 'a? a, 'u uri, 'p @p };\nlet @p = num;\nlet @q = /x/{ 'id num };\nlet @rel = @q on get -> <c>;\n"
+                                   "res @rel;\nres /c on get -> <{ 'rel @rel, 'q @q, 'p @p, 'c c }>;\n",
+    "rec-inside-functions": "let f x = rec r { 'v x, 'next? r, 'alias g r };\nlet g y = y;\nlet h = f num;\nlet @k = h;\n"
+                            "res /h on get -> <h> :: <status=404, @k> :: <status=500, f str>;\n",
+}
+
+
 def emitter_lemmas(o, M, MO):
     """value_schema's unreachable!() arms and the VariadicOp/Range split."""
     E = mirlib.enums()
@@ -910,9 +922,27 @@ def emitter_lemmas(o, M, MO):
                     bad.append("Expr::VariadicOp built for operator Range")
     if n == 0:
         o.inconc("eval_variadic_operation: no path builds Expr::VariadicOp")
+    # replay: programs that put every kind of value behind implicit / explicit / recursive references and
+    # operators, run through the real oal-cli; an accepted program that kills the process is the violation
+    cli = build_cli()
+    rdir = new_replay_dir("C01", "emitter-programs")
+    crashes, detail = [], {}
+    for name, src in EMITTER_PROGRAMS.items():
+        r = run_cli(cli, {"main.oal": src}, workdir=os.path.join(rdir, name), timeout=30)
+        loc = panic_location(r["out"])
+        detail[name] = {"rc": r["rc"], "panic": "%s:%s" % loc if loc else None}
+        if crashed(r):
+            crashes.append("%s: exit %s%s" % (name, r["rc"], (" (panicked at %s:%s)" % loc) if loc else ""))
+    with open(os.path.join(rdir, "cmd"), "w") as f:
+        f.write("#!/bin/sh\n# each sub-directory holds one program; re-run: oal-cli -m main.oal -t out.yaml\ncd /verif && for d in %s/*/; do ./check C01 --replay $d; done\n" % rdir)
+    o.extra["emitter_programs"] = detail
     if bad:
-        # no program-level replay is derived for these three lemmas
-        o.inconc("UNCONFIRMED emitter lemma(s) fail: %s" % "; ".join(bad[:3]))
+        if crashes:
+            o.violation("accepted program crashes the emitter; lemma(s): %s; real oal-cli: %s" % ("; ".join(bad[:3]), "; ".join(crashes[:3])), rdir)
+        else:
+            o.inconc("UNCONFIRMED emitter lemma(s) fail: %s (no emitter program crashes the real oal-cli)" % "; ".join(bad[:3]))
+    elif crashes:
+        o.oracle_only("accepted programs crash the back end (%s) although every emitter lemma holds" % "; ".join(crashes[:3]), rdir)
 
 
 def replay(path):
